@@ -859,3 +859,7 @@ mod tests {
         test_tokio(AlwaysFailTransport, run_test);
     }
 }
+
+#[cfg(libp2p_verif)]
+#[doc(hidden)]
+pub mod verif_tpt;
